@@ -11,7 +11,7 @@ from gridrv.oracles import datafiles, sph
 PROP = "C02"
 TITLE = "Every shipped angular grid is exact to its advertised degree"
 REQUIRED_HOOKS = ["AngularGrid.__init__"]
-REQUIRED_FAMILIES = ["lebedev", "spherical", "maxdet", "ahrens_beylkin", "cross-method-same-degree"]
+REQUIRED_FAMILIES = ["lebedev", "spherical", "maxdet", "ahrens_beylkin", "cross-method-same-degree", "after-aborted-construction"]
 BUDGET = {"quick": 400, "thorough": 2400}
 EXHAUSTIVE = {"quick": False, "thorough": True}
 TOL = 1e-9
@@ -21,7 +21,7 @@ RULE = (
     "with l <= degree using an independent normalised recursion (tol 1e-9), |p|=1 (1e-12) and size==table size. "
     "thorough: all rows of all four methods (exhaustive over the shipped set); quick: all Lebedev and Ahrens-Beylkin rows, "
     "every spherical/maxdet row with N < 2000, the smallest and largest row, and a seed-rotated third of the rest. "
-    "Family cross-method-same-degree builds one degree with every method supporting it in one process with the default cache=True, twice, so grids are also observed when served from the module caches after other methods were used. A case is non-trivial when its full moment table was evaluated."
+    "Family cross-method-same-degree builds one degree with every method supporting it in one process with the default cache=True, twice, so grids are also observed when served from the module caches after other methods were used. Family after-aborted-construction first runs a construction under warnings-as-errors (aborted by the library's own warnings: negative Lebedev weights, size-is-used), swallows the warning, then constructs the same row normally with cache on and off. A case is non-trivial when its full moment table was evaluated."
 )
 ASSUMPTIONS = [
     "supported rows = the library's public size->degree tables; exactness oracle = own float64 recursion validated against mpmath at start-up",
@@ -53,6 +53,16 @@ def cases(tier, seed):
         if len(lst) < 2 or (tier == "quick" and d > 70 and (d + seed) % 5):
             continue
         out.append(("cross-method-same-degree", {"degree": d, "order": (d + seed) % 2}, sum(s for _, s in lst) * (d + 1.0) ** 2 * 1.5))
+    # a construction aborted by one of the library's own warnings (process running with warnings as errors, the caller
+    # catching the exception) must not leave anything behind that later constructions of that grid pick up
+    for m in METHODS:
+        t = datafiles.table(m)
+        rows = [r for r in t if (m == "lebedev" and r[0] in (13, 25, 27))] + [t[(seed + k * 7) % len(t)] for k in range(2 if tier == "quick" else 12)]
+        for d, s in rows:
+            if s > 6000:
+                continue
+            for by in ("degree", "size", "both"):
+                out.append(("after-aborted-construction", {"method": m, "degree": d, "size": s, "by": by}, s * (d + 1.0) ** 2 * 2))
     return out
 
 
@@ -86,6 +96,32 @@ def run_case(ctx, family, params):
                     g = AngularGrid(degree=d, method=spelled)  # default cache=True
                     ctx.check("advertised-size", subj + ":method-echo", g.method == m, detail={"method": g.method, "spelled": spelled})
                     ctx.check("advertised-size", subj + ":after-other-methods", (int(g.degree), int(g.size), len(g.points)) == (d, s, s), detail={"got": [int(g.degree), int(g.size), len(g.points)], "round": rep})
+        return
+    if family == "after-aborted-construction":
+        import warnings
+
+        import grid.angular as ga
+
+        m, d, s, by = params["method"], params["degree"], params["size"], params["by"]
+        subj = f"{m}_{d}_{s}:after-abort-by-{by}"
+        kw = {"degree": {"degree": d}, "size": {"size": s}, "both": {"degree": d, "size": s}}[by]
+        for cold in (True, False):
+            if cold:  # first construction of this row in the process: the module-level caches are public names
+                for c in (ga.LEBEDEV_CACHE, ga.SPHERICAL_CACHE, ga.MAX_DET_CACHE, ga.AHRENS_BEYLKIN_CACHE):
+                    c.pop(d, None)
+            aborted = None
+            with warnings.catch_warnings():
+                warnings.simplefilter("error")
+                try:
+                    AngularGrid(method=m, cache=True, **kw)
+                except Warning as w:
+                    aborted = type(w).__name__
+            ctx.hit("construction-aborted-by-warning" if aborted else "construction-under-error-filter-completed")
+            for cache in (True, False):
+                with ctx.guard("constructible", subj):
+                    g = AngularGrid(method=m, cache=cache, **kw)  # the post-condition decides exactness
+                    ctx.check("advertised-size", subj, (int(g.degree), int(g.size), len(g.points)) == (d, s, s), detail={"got": [int(g.degree), int(g.size), len(g.points)], "cold": cold, "cache": cache})
+                    ctx.check("weights-sum-4pi", f"{m}_{d}_{s}", abs(float(np.sum(g.weights)) - 4 * np.pi), 1e-9, sig="first-bad-l=0", detail={"after": "aborted construction by " + by, "aborted_by": aborted, "cold": cold, "cache": cache})
         return
     m, d, s = family, params["degree"], params["size"]
     subj = f"{m}_{d}_{s}"
